@@ -19,6 +19,9 @@ RULE = (
     'nthread 1..16, default/explicit npartition, coord 0..2, sort; each compared cell by cell with the reference kernel; exact-regime cases bit for bit. '
     'non-trivial = distinct (kernel, family, grid shape, dtypes, offset, nthread/npartition/coord/sort) with >= 2 particles'
 )
+RULE += (
+    ' Added after seeded round 9: grids two cells thick along an axis; every thread count 2..16 x particle counts {15, 61, 115, 4009, random} against the reference kernel.'
+)
 ASSUMPTIONS = [
     'general regime tolerance per cell: (16 + 8*gmax)*eps(position dtype)*(3x3x3-dilated reference deposit of |w|) + 4*eps(grid dtype)*same',
     'with wrap=False only positions inside [0, BoxSize] are used (documented precondition)',
